@@ -1,8 +1,11 @@
 """C07 - Decoding never hangs or crashes: any bytes give a result or the library error."""
 import contextlib
 import io
+import json
 import os
 import shutil
+import subprocess
+import sys
 import tempfile
 
 from hypothesis import strategies as st
@@ -25,7 +28,7 @@ RULE = ('Entry points: iso8583.loads (packaged and generated configurations; asc
         'lines is not exceeded. Non-trivial = the input passes the header stage and reaches field parsing; distinct by digest '
         'of (entry, configuration, codec, rendering, bytes).')
 ASSUMPTIONS = ['the field configuration is the caller\'s and is well-formed (field_length present, known field types)',
-               'termination is judged by executed Python lines in cardutil.iso8583 / cardutil.mciipm (C code is not counted; the only input-dependent C loop is the DE43 regular expression)',
+               'termination is judged by executed Python lines in cardutil.iso8583 / cardutil.mciipm; the only input-dependent loop in C code is the DE43 regular expression, which is bounded by a 10 s wall-clock limit per call that counts only when the same input exceeds it again alone in a fresh process (a normal call takes under 5 ms)',
                'for the command-line tools only exceptions raised inside iso8583.py / mciipm.py count (CSV / output-encoding errors are outside the property)']
 
 PACKAGED = gen_iso.packaged_config()
@@ -51,8 +54,36 @@ def call_loads(data, codec, config, hexbm, default_cfg=False):
         return Outcome('lib', ex=ex)
     except steps.StepBudgetExceeded as ex:
         return Outcome('hang', ex=ex)
+    except steps.WallClockExceeded as ex:
+        case = {'entry': 'loads', 'config': None if default_cfg else config, 'codec': codec, 'hex': hexbm, 'data': data}
+        if confirm_slow(case):
+            return Outcome('hang', ex=ex)
+        raise harness.HarnessError(f'inconclusive: loads exceeded {steps.WALL_LIMIT}s of wall clock once but finished when re-run alone: {data[:80]!r}')
     except Exception as ex:  # noqa
         return Outcome('crash', ex=ex)
+
+
+def confirm_slow(case):
+    """a wall-clock trip is only believed if the same input again fails to finish within the limit when run alone in a
+    fresh process (a call normally takes milliseconds: scheduling noise cannot produce a 10 s stall twice, an exponential
+    regular expression does)"""
+    if os.environ.get('VERIF_NO_CONFIRM') == '1':
+        return True
+    d = tempfile.mkdtemp(prefix='cardutil-verif-slow-')
+    try:
+        path = os.path.join(d, 'case.json')
+        with open(path, 'w') as f:
+            json.dump({'property': 'C07', 'case': harness.enc(case)}, f)
+        env = dict(os.environ, VERIF_NO_CONFIRM='1', VERIF_WALL_LIMIT=str(steps.WALL_LIMIT), VERIF_OUT=d)
+        run_py = os.path.join(harness.VERIF_DIR, 'run.py')
+        try:
+            p = subprocess.run([sys.executable, run_py, 'C07', '--replay', path], env=env, capture_output=True, text=True,
+                               timeout=steps.WALL_LIMIT * 12 + 60)
+        except subprocess.TimeoutExpired:
+            return True
+        return p.returncode == 1
+    finally:
+        shutil.rmtree(d, ignore_errors=True)
 
 
 def judge_loads(data, codec, config, hexbm, default_cfg=False):
@@ -63,6 +94,9 @@ def judge_loads(data, codec, config, hexbm, default_cfg=False):
         return None
     if o.kind == 'lib':
         return None
+    if o.kind == 'hang' and isinstance(o.ex, steps.WallClockExceeded):
+        return 'loads:non-termination@wall-clock', (f'loads did not return within {steps.WALL_LIMIT}s (nor when re-run alone '
+                                                    f'in a fresh process) on {len(data)} bytes {data[:100]!r} codec={codec} hex={hexbm}')
     if o.kind == 'hang':
         return 'loads:non-termination@' + str(o.ex).split(':')[0], (
             f'loads exceeded the step budget ({steps.limit_for(len(data))} lines) on {len(data)} bytes {data[:80]!r} '
@@ -72,7 +106,7 @@ def judge_loads(data, codec, config, hexbm, default_cfg=False):
 
 
 def reached(config, codec, hexbm, data):
-    r = refcodec.decode(config, codec, hexbm, data, strict=False)
+    r = refcodec.decode(config, codec, hexbm, data, strict=False, de43=False)
     return r.reached
 
 
@@ -123,16 +157,25 @@ def hyp_random(ctx, n):
 
     def body(v):
         config, codec, hexbm, data, gen = v
+        res = judge_loads(data, codec, config, hexbm, default_cfg=not gen)
+        if res and res[0].endswith('@wall-clock'):
+            ctx.fail(res[0], {'entry': 'loads', 'config': config if gen else None, 'codec': codec, 'hex': hexbm, 'data': data}, res[1])
         rs = reached(config, codec, hexbm, data)
         ctx.case(key=harness.digest(('rand', config if gen else 0, codec, hexbm, data)), nontrivial='fields' in rs,
                  labels=['loads', 'random-bytes'] + labels_reached(rs))
-        res = judge_loads(data, codec, config, hexbm, default_cfg=not gen)
         if res:
             ctx.fail(res[0], {'entry': 'loads', 'config': config if gen else None, 'codec': codec, 'hex': hexbm, 'data': data}, res[1])
     harness.drive(ctx, cases(), body, n, salt='random')
 
 
 # ------------------------------------------------------------------------------------ loads: exhaustive substitution
+
+def _collect(ctx, res, case):
+    """enumeration-style collection, except that a confirmed wall-clock hang stops the task (ctx.fail raises AbortRun)"""
+    if res[0].endswith('@wall-clock'):
+        ctx.fail(res[0], case, res[1])
+    ctx.report(res[0], case, res[1])
+
 
 def subst_sweep(ctx, nmsgs):
     def body(v):
@@ -151,7 +194,7 @@ def subst_sweep(ctx, nmsgs):
                 n += 1
                 res = judge_loads(mutated, codec, config, hexbm, default_cfg=not gen)
                 if res:
-                    ctx.report(res[0], {'entry': 'loads', 'config': config if gen else None, 'codec': codec, 'hex': hexbm, 'data': mutated}, res[1])
+                    _collect(ctx, res, {'entry': 'loads', 'config': config if gen else None, 'codec': codec, 'hex': hexbm, 'data': mutated})
         if hexbm:
             # pairs of bytes inside the 32-character hex bitmap: a reader that converts hex leniently (skipping blanks,
             # accepting separators) ends up with a bitmap of the wrong size
@@ -163,7 +206,7 @@ def subst_sweep(ctx, nmsgs):
                         hp += 1
                         res = judge_loads(mutated, codec, config, hexbm, default_cfg=not gen)
                         if res:
-                            ctx.report(res[0], {'entry': 'loads', 'config': config if gen else None, 'codec': codec, 'hex': hexbm, 'data': mutated}, res[1])
+                            _collect(ctx, res, {'entry': 'loads', 'config': config if gen else None, 'codec': codec, 'hex': hexbm, 'data': mutated})
             for a in HEX_ATTACK:
                 for width in (4, 8, 16, 30, 32):
                     for start in (4, 5, 4 + 32 - width):
@@ -171,7 +214,7 @@ def subst_sweep(ctx, nmsgs):
                         hp += 1
                         res = judge_loads(mutated, codec, config, hexbm, default_cfg=not gen)
                         if res:
-                            ctx.report(res[0], {'entry': 'loads', 'config': config if gen else None, 'codec': codec, 'hex': hexbm, 'data': mutated}, res[1])
+                            _collect(ctx, res, {'entry': 'loads', 'config': config if gen else None, 'codec': codec, 'hex': hexbm, 'data': mutated})
             n += hp
             ctx.labels['hex-bitmap-pair-substitutions'] += hp
         # classify a sample of them for the reach labels (the full classification would double the cost)
@@ -206,12 +249,14 @@ def hyp_mutations(ctx, n):
     def body(v):
         config, codec, hexbm, data, gen, ops, frames = v
         mutated = mutate.apply(data, ops, frames, codec, hexbm)
+        res = judge_loads(mutated, codec, config, hexbm, default_cfg=not gen)
+        if res and res[0].endswith('@wall-clock'):
+            ctx.fail(res[0], {'entry': 'loads', 'config': config if gen else None, 'codec': codec, 'hex': hexbm, 'data': mutated}, res[1])
         rs = reached(config, codec, hexbm, mutated)
         ctx.case(key=harness.digest(('mut', config if gen else 0, codec, hexbm, mutated)), nontrivial='fields' in rs,
                  labels=['loads', 'mutation'] + ['mutation:' + x for x in labels_reached(rs)] + ['op:' + o[0] for o in ops])
         if len(ctx.samples) < 5:
             ctx.sample({'entry': 'loads', 'codec': codec, 'hex_bitmap': hexbm, 'ops': ops, 'mutated': mutated[:100]})
-        res = judge_loads(mutated, codec, config, hexbm, default_cfg=not gen)
         if res:
             ctx.fail(res[0], {'entry': 'loads', 'config': config if gen else None, 'codec': codec, 'hex': hexbm, 'data': mutated}, res[1])
     harness.drive(ctx, cases(), body, n, salt='mutations')
@@ -240,6 +285,11 @@ def run_reader(kind, data, blocked, codec, config):
         return None
     except steps.StepBudgetExceeded as ex:
         return f'{kind}-reader:non-termination@{str(ex).split(":")[0]}', f'{kind} reader (blocked={blocked}) exceeded the step budget on a {len(data)}-byte file at {ex}'
+    except steps.WallClockExceeded:
+        case = {'entry': kind + '-reader', 'config': None if config is PACKAGED else config, 'codec': codec, 'data': data, 'blocked': blocked}
+        if confirm_slow(case):
+            return f'{kind}-reader:non-termination@wall-clock', f'{kind} reader (blocked={blocked}, codec={codec}) did not finish a {len(data)}-byte file within the wall-clock limit, twice'
+        raise harness.HarnessError('inconclusive: reader exceeded the wall-clock limit once but finished when re-run alone')
     except Exception as ex:  # noqa
         return f'{kind}-reader:{type(ex).__name__}@{where(ex)}', f'{kind} reader (blocked={blocked}, codec={codec}) raised {ex!r} on a {len(data)}-byte file starting {data[:60]!r}'
     return None
@@ -321,6 +371,11 @@ def run_cli(tool, data, blocked, ebcdic, scratch):
                 mideu.cli_entry(args)
     except steps.StepBudgetExceeded as ex:
         return f'{tool}:non-termination', f'{tool} exceeded the step budget on a {len(data)}-byte file at {ex}'
+    except steps.WallClockExceeded:
+        case = {'entry': tool, 'data': data, 'blocked': blocked, 'ebcdic': ebcdic}
+        if confirm_slow(case):
+            return f'{tool}:non-termination@wall-clock', f'{tool} did not finish a {len(data)}-byte file within the wall-clock limit, twice'
+        raise harness.HarnessError('inconclusive: tool exceeded the wall-clock limit once but finished when re-run alone')
     except SystemExit:
         return None
     except Exception as ex:  # noqa
